@@ -81,6 +81,12 @@ func (e Emis) logd(x []float64) float64 {
 			s += f.logd(x[i : i+1])
 		}
 		return s
+	case "vectorid": // x = flattened matrix, one row per sub-density
+		s, d := 0.0, len(x)/len(e.Sub)
+		for i, f := range e.Sub {
+			s += f.logd(x[i*d : (i+1)*d])
+		}
+		return s
 	case "mixture":
 		t := make([]float64, len(e.Sub))
 		for j, f := range e.Sub {
@@ -101,7 +107,7 @@ type HmmPar struct {
 }
 
 type EMCase struct {
-	Kind     string        `json:"kind"` // smix | vmix | hmm | dmix (scalarEstimator.DiscreteMixtureEstimator)
+	Kind     string        `json:"kind"` // smix | vmix | hmm | dmix (scalarEstimator.DiscreteMixtureEstimator) | mhmm | mmix (matrixEstimator)
 	Label    string        `json:"label"`
 	Route    string        `json:"route,omitempty"`    // dmix: setdata+estimate (summarised data set) | estimateondata | plain (MixtureEstimator)
 	DataSet  string        `json:"data_set,omitempty"` // hmm: "" = HmmEstimator (HmmStdDataSet) | summarized (NewHmmSummarizedDataSet + generic.BaumWelchAlgorithm)
@@ -111,6 +117,9 @@ type EMCase struct {
 	Data     [][][]float64 `json:"data"` // records -> observations -> coordinates
 	MaxSteps int           `json:"max_steps,omitempty"`
 	Threads  int           `json:"threads,omitempty"` // >1 only for the loud-failure check of inadmissible starts
+	// option lattice (emopts.go): OptimizeEmissions=false / OptimizeTransitions=false (HMMs) resp. OptimizeWeights=false (mixtures)
+	FreezeEmissions bool `json:"optimize_emissions_false,omitempty"`
+	FreezeSecond    bool `json:"optimize_transitions_or_weights_false,omitempty"`
 }
 
 func (cs *EMCase) maxSteps() int {
@@ -400,6 +409,8 @@ func runTrajectory(cs *EMCase) (tr []step, err error) {
 			if err != nil {
 				return fmt.Errorf("harness-construct: %v", err)
 			}
+			est.OptimizeEmissions = !cs.FreezeEmissions
+			est.OptimizeWeights = !cs.FreezeSecond
 			x := ad.NullDenseFloat64Vector(len(cs.Data[0]))
 			for k, v := range cs.Data[0] {
 				x.At(k).SetFloat64(v[0])
@@ -408,7 +419,7 @@ func runTrajectory(cs *EMCase) (tr []step, err error) {
 		case "vmix":
 			subs := make([]st.VectorEstimator, len(cs.Mix.Sub))
 			for i, s := range cs.Mix.Sub {
-				x, err := mkVectorEst(s, cs.SigmaMin)
+				x, err := mkVectorEstN(s, cs.SigmaMin)
 				if err != nil {
 					return fmt.Errorf("harness-construct: %v", err)
 				}
@@ -421,6 +432,8 @@ func runTrajectory(cs *EMCase) (tr []step, err error) {
 			if err != nil {
 				return fmt.Errorf("harness-construct: %v", err)
 			}
+			est.OptimizeEmissions = !cs.FreezeEmissions
+			est.OptimizeWeights = !cs.FreezeSecond
 			xs := make([]ad.ConstVector, len(cs.Data[0]))
 			for k, v := range cs.Data[0] {
 				xs[k] = ad.NewDenseFloat64Vector(append([]float64{}, v...))
@@ -428,6 +441,10 @@ func runTrajectory(cs *EMCase) (tr []step, err error) {
 			return est.EstimateOnData(xs, nil, pool1)
 		case "dmix":
 			return runDiscreteMixture(cs, &tr)
+		case "mhmm":
+			return runMatrixHmm(cs, &tr)
+		case "mmix":
+			return runMatrixMixture(cs, &tr)
 		case "hmm":
 			if cs.DataSet == "summarized" {
 				return runSummarizedHmm(cs, &tr)
@@ -456,6 +473,8 @@ func runTrajectory(cs *EMCase) (tr []step, err error) {
 			if err != nil {
 				return fmt.Errorf("harness-construct: %v", err)
 			}
+			est.OptimizeEmissions = !cs.FreezeEmissions
+			est.OptimizeTransitions = !cs.FreezeSecond
 			xs := make([]ad.ConstVector, len(cs.Data))
 			for r, rec := range cs.Data {
 				v := ad.NullDenseFloat64Vector(len(rec))
@@ -475,7 +494,7 @@ func runTrajectory(cs *EMCase) (tr []step, err error) {
 }
 
 func (cs *EMCase) loglik(s step) float64 {
-	if cs.Kind == "hmm" {
+	if cs.isHmm() {
 		return hmmLoglik(s.hmm, cs.Data)
 	}
 	return mixLoglik(s.mix, cs.Data)
@@ -499,7 +518,7 @@ func runEMCase(c *vf.Ctx, cs *EMCase, idx int64) {
 		// differential: the run on the summarised data set against the standard estimator on the same (expanded) data
 		diffAgainstStandard(c, cs, tr, err, viol)
 	}
-	if cs.Kind == "hmm" && math.IsInf(hmmLoglik(*cs.Hmm, cs.Data), -1) {
+	if cs.isHmm() && math.IsInf(hmmLoglik(*cs.Hmm, cs.Data), -1) {
 		// inadmissible start: the data has probability zero under the initial model. There is
 		// no likelihood to improve; the only demand is a loud failure.
 		switch {
@@ -543,9 +562,17 @@ func runEMCase(c *vf.Ctx, cs *EMCase, idx int64) {
 			return
 		}
 	}
+	if cs.FreezeEmissions || cs.FreezeSecond {
+		for i := 1; i < len(tr); i++ {
+			if blk := frozenMoved(cs, tr[0], tr[i]); blk != "" {
+				viol("not-optimised-block", blk+"-changed", fmt.Sprintf("the %s are not optimised but differ at hook call %d from the initial model: %s -> %s", blk, i, describe(cs, tr[0]), describe(cs, tr[i])))
+				return
+			}
+		}
+	}
 	moved := false
 	left := func(s step) bool {
-		if cs.Kind == "hmm" && !admissible(s.hmm) {
+		if cs.isHmm() && !admissible(s.hmm) {
 			c.Outcome("em:" + cs.Label + ":left-admissible-region(row without mass on the final states)")
 			c.Count("em_trajectories_left_admissible_region", 1)
 			return true
@@ -623,7 +650,7 @@ func errClass(err error) string {
 }
 
 func describe(cs *EMCase, s step) string {
-	if cs.Kind == "hmm" {
+	if cs.isHmm() {
 		return fmt.Sprintf("%+v", s.hmm)
 	}
 	return fmt.Sprintf("%+v", s.mix)
@@ -916,4 +943,6 @@ func runEM(c *vf.Ctx, thorough bool) {
 	}
 	// ---- summarised data sets (discrete.go)
 	enumSummarised(thorough, each, poissonOpts, catOpts, rows, seqData, pairData)
+	// ---- matrixEstimator instantiations and the option lattice (emopts.go)
+	enumMatrixAndOptions(thorough, each, normalOpts, poissonOpts, catOpts, prodOpts, mixedOpts, rows, seqData, pairData)
 }
